@@ -508,7 +508,13 @@ func (c *Ctx) orderAxioms(fname string) {
 	ty, x, y, z := smt.T{S: "t", Sort: smt.V}, smt.T{S: "x", Sort: smt.V}, smt.T{S: "y", Sort: smt.V}, smt.T{S: "z", Sort: smt.V}
 	cmp := func(a, b smt.T) smt.T { return smt.App(smt.Int, fname, ty, a, b) }
 	bs := []smt.Bound{{Name: "t", Sort: smt.V}, {Name: "x", Sort: smt.V}, {Name: "y", Sort: smt.V}}
-	c.E.Axioms = append(c.E.Axioms, smt.Forall(bs, smt.And(smt.Le(smt.IntLit(-1), cmp(x, y)), smt.Le(cmp(x, y), smt.IntLit(1)), smt.Eq(cmp(x, y), smt.Neg(cmp(y, x)))), cmp(x, y)))
+	if c.In != nil && c.In.Con != nil && len(c.In.Con.Attrs["o-order-by-sign"]) > 0 {
+		// only the sign of a three-way comparison is specified (a user Compare method may
+		// return any negative / positive number): antisymmetry of the sign
+		c.E.Axioms = append(c.E.Axioms, smt.Forall(bs, smt.And(smt.Eq(smt.Lt(cmp(x, y), smt.IntLit(0)), smt.Gt(cmp(y, x), smt.IntLit(0))), smt.Eq(smt.Eq(cmp(x, y), smt.IntLit(0)), smt.Eq(cmp(y, x), smt.IntLit(0)))), cmp(x, y)))
+	} else {
+		c.E.Axioms = append(c.E.Axioms, smt.Forall(bs, smt.And(smt.Le(smt.IntLit(-1), cmp(x, y)), smt.Le(cmp(x, y), smt.IntLit(1)), smt.Eq(cmp(x, y), smt.Neg(cmp(y, x)))), cmp(x, y)))
+	}
 	bs3 := append(bs, smt.Bound{Name: "z", Sort: smt.V})
 	c.E.Axioms = append(c.E.Axioms, smt.Forall(bs3, smt.Implies(smt.And(smt.Le(cmp(x, y), smt.IntLit(0)), smt.Le(cmp(y, z), smt.IntLit(0))), smt.Le(cmp(x, z), smt.IntLit(0))), cmp(x, y), cmp(y, z)))
 	c.E.Axioms = append(c.E.Axioms, smt.Forall(bs3, smt.Implies(smt.And(smt.Le(cmp(x, y), smt.IntLit(0)), smt.Lt(cmp(y, z), smt.IntLit(0))), smt.Lt(cmp(x, z), smt.IntLit(0))), cmp(x, y), cmp(y, z)))
